@@ -258,12 +258,14 @@ def _orm_columns(t):
     """Column names that must show up in the compiled SQL: plain Item columns, the last segment of
     a path, columns used in lambda bodies."""
     out = set()
-    for x in walk(t):
+    nodes = list(walk(t))
+    inner = {x[1] for x in nodes if x[0] == "path"} | {x[1] for x in nodes if x[0] == "lambda"}
+    for x in nodes:
         if x[0] == "id" and x[1] in ITEM_COLUMNS and not x[2]:
             out.add(x[1])
-        elif x[0] == "path":
-            out.add(x[2])
-    return out - {"owner", "org", "region", "items", "parts", "tags", "owners"}
+        elif x[0] == "path" and x not in inner:
+            out.add(x[2])          # last segment of a maximal path: a column of the related table
+    return out - {"owner", "org", "region", "home", "items", "parts", "tags", "owners"}
 
 
 def _foldable(t):
@@ -293,7 +295,9 @@ def _orm_complete(t, sql, params):
     if _has_constant_predicate(t):
         return None
     ptxt = [str(p) for p in params]
-    low = sql.lower()
+    # only the WHERE part counts: the SELECT list names every column anyway
+    parts = re.split(r"\sWHERE\s", sql, maxsplit=1)
+    low = parts[1].lower() if len(parts) == 2 else ""
     foldable = _foldable(t)
     for f in _orm_columns(t):
         if f.lower() not in low:
